@@ -72,8 +72,9 @@ contract("iface::ILogger.write", params=["self", "dictionary", "serializer"], de
                "which may consume positions of the current action only",
          requires=[("current-action-consistent", "cur_ok()")],
          modifies=["#LOG", "#OFFERS", "#CALLS", "#IO", "field:_last_child"],
-         ghosts={"R": "seqe"},
+         ghosts={"R": "seqe", "DOFF": "seqe"},
          ensures=[("one-write-then-only-reports", "LOG == old(LOG) + [write_ev(self, dictionary, serializer)] + R and all_reports(R)"),
+                  ("offers-appended", "OFFERS == old(OFFERS) + DOFF"),
                   ("dictionary-not-mutated", "dict_of(dictionary) == old(dict_of(dictionary))"),
                   ("positions-only-in-current-action", "only_changed('_last_child', curact())"),
                   ("current-action-advances", "implies(curact() is not None, pos_ok(typed(curact(), 'Action')) and pos(typed(curact(), 'Action')) >= old(pos(typed(curact(), 'Action'))))"),
@@ -124,3 +125,48 @@ contract("iface::Extractor.__call__", params=["self", "exception"], returns="dic
 
 from pyvc.spec import wf_fields
 wf_fields("_identification", "_successFields")
+
+fields("Destinations", _destinations="list[role:Dest]", _any_added="bool", _globalFields="dict")
+fields("BufferingDestination", messages="list")
+fields("Logger", _destinations="Destinations")
+
+
+def _count_failed_axioms(eng):
+    import z3
+    from pyvc.sorts import SeqE, Ev, Val
+    from pyvc.models import COUNT_FAILED
+    a, b = z3.Consts("cf!a cf!b", SeqE)
+    e = z3.Const("cf!e", Ev)
+    return [COUNT_FAILED(z3.Empty(SeqE)) == 0,
+            z3.ForAll([a, b], COUNT_FAILED(z3.Concat(a, b)) == COUNT_FAILED(a) + COUNT_FAILED(b), patterns=[COUNT_FAILED(z3.Concat(a, b))]),
+            z3.ForAll([e], COUNT_FAILED(z3.Unit(e)) == z3.If(Ev.c(e) == Val.BoolV(True), 1, 0), patterns=[COUNT_FAILED(z3.Unit(e))]),
+            z3.ForAll([a], COUNT_FAILED(a) >= 0, patterns=[COUNT_FAILED(a)])]
+
+def _proj_axioms(eng):
+    import z3
+    from pyvc.sorts import SeqE, SeqV, Ev, Val, S
+    from pyvc.models import PROJ_A, ALL_B, ALL_TAG
+    a, b = z3.Consts("pj!a pj!b", SeqE)
+    e = z3.Const("pj!e", Ev)
+    v = z3.Const("pj!v", Val)
+    t = z3.Const("pj!t", S)
+    return [PROJ_A(z3.Empty(SeqE)) == z3.Empty(SeqV),
+            z3.ForAll([a, b], PROJ_A(z3.Concat(a, b)) == z3.Concat(PROJ_A(a), PROJ_A(b)), patterns=[PROJ_A(z3.Concat(a, b))]),
+            z3.ForAll([e], PROJ_A(z3.Unit(e)) == z3.Unit(Ev.a(e)), patterns=[PROJ_A(z3.Unit(e))]),
+            z3.ForAll([v], ALL_B(z3.Empty(SeqE), v), patterns=[ALL_B(z3.Empty(SeqE), v)]),
+            z3.ForAll([a, b, v], ALL_B(z3.Concat(a, b), v) == z3.And(ALL_B(a, v), ALL_B(b, v)), patterns=[ALL_B(z3.Concat(a, b), v)]),
+            z3.ForAll([e, v], ALL_B(z3.Unit(e), v) == (Ev.b(e) == v), patterns=[ALL_B(z3.Unit(e), v)]),
+            z3.ForAll([t], ALL_TAG(z3.Empty(SeqE), t), patterns=[ALL_TAG(z3.Empty(SeqE), t)]),
+            z3.ForAll([a, b, t], ALL_TAG(z3.Concat(a, b), t) == z3.And(ALL_TAG(a, t), ALL_TAG(b, t)), patterns=[ALL_TAG(z3.Concat(a, b), t)]),
+            z3.ForAll([e, t], ALL_TAG(z3.Unit(e), t) == (Ev.tag(e) == t), patterns=[ALL_TAG(z3.Unit(e), t)])]
+
+axiom("event-projections", _proj_axioms, "definitions of proj_a / all_b / all_tag over event sequences (empty / concatenation / unit)")
+axiom("count_failed", _count_failed_axioms, "definition of the spec function count_failed over offer events (empty / concatenation / unit)")
+
+contract("iface::Dest.__call__", params=["self", "message"], returns="Any",
+         notes="a registered destination: any callable taking the message dict; may raise any Exception subclass on any call "
+               "(the property's fault model); does not mutate the dictionary, does not re-enter Eliot, does not touch Eliot's objects",
+         modifies=["#OFFERS", "#IO"],
+         ensures=[("offer-recorded", "OFFERS == old(OFFERS) + [Ev('offer', self, message, False)]"), ("io-grows", "prefix_of(old(IO), IO)")],
+         raises=[{"cls": "Exception", "ensures": [("offer-recorded", "OFFERS == old(OFFERS) + [Ev('offer', self, message, True, exc)]"),
+                                                  ("io-grows", "prefix_of(old(IO), IO)")]}])
